@@ -294,22 +294,8 @@ TECHNIQUE = "Lean 4 theorems over a model of the equality/ordering impls + diffe
 
 
 def __getattr__(name):
-    """ALWAYS_QUIRKS is computed: map `==` being order-sensitive is a C13 finding (flag
-    mapEqOrdered), it is symmetric and therefore never a C12 failure, but the C12 as-is model
-    must follow the code.  The flag is live iff C13's finding is open *and* the code still
-    compares `(a:1, b:2)` and `(b:2, a:1)` unequal (probed on the harness that was just built)."""
+    """ALWAYS_QUIRKS is computed: flags of the shared value model that belong to open findings of
+    other properties (e.g. C13's map-equality findings) are live iff their witness still fails."""
     if name == "ALWAYS_QUIRKS":
-        import json, os
-        from tools.vlib import VERIF, run_impl
-        try:
-            kf = json.load(open(os.path.join(VERIF, "known_findings.json")))["findings"]
-        except OSError:
-            kf = []
-        if not any("mapEqOrdered" in f.get("flags", []) and f.get("status") == "open" for f in kf):
-            return []
-        a, b = num(1.0), num(2.0)
-        ka, kb = ("str", "a", "n"), ("str", "b", "n")
-        probe = f"veq\t{G.term(('map', [(ka, a), (kb, b)]))}\t{G.term(('map', [(kb, b), (ka, a)]))}\t-"
-        out = run_impl([probe])
-        return ["mapEqOrdered"] if out and out[0][:1] == "F" else []
+        return G.live_value_flags(ID)
     raise AttributeError(name)
